@@ -108,10 +108,31 @@ def run_case(case: dict) -> Result:
                 isinstance(t, (O.Whitespace, O.Newline)) or type(t).__name__ in ('Indent', 'InlineComment') or (isinstance(t, O.BlockComment) and not t.claimed) or t.raw_text == ''
                 for t in outside))
             has_comment = any(isinstance(t, O.BlockComment) for t in outside)
+            # with attribution on, a comment of the model's own indentation class separated from it by exactly one line break is the model's
+            # leading / trailing comment by the documented rule: left outside, it is not the known outer-trivia case
+            claimable = False
+            if claim and has_comment:
+                indented = type(order.tokens[a]).__name__ == 'Indent'
+                for side, rng in (('before', range(a - 1, -1, -1)), ('after', range(b + 1, len(order.tokens)))):
+                    breaks = 0
+                    for i in rng:
+                        t = order.tokens[i]
+                        if t.raw_text == '' or isinstance(t, O.Whitespace) or (side == 'after' and type(t).__name__ == 'Indent'):
+                            continue
+                        if isinstance(t, O.Newline):
+                            breaks += t.raw_text.count('\n')
+                            continue
+                        if isinstance(t, O.BlockComment) and breaks == 1 and not t.claimed and bool(t.indent) == indented:
+                            claimable = True
+                        break
         except Exception:  # noqa: BLE001
             outer_only = False
             has_comment = False
-        if outer_only:
+            claimable = False
+        if outer_only and claimable:
+            res.bad('print!=text:adjacent-comment-not-claimed:claim=on',
+                    f'parse({text!r}, {cls.__name__}, auto_claim_comments=True) prints {printed!r}: a comment of the model\'s own indentation class directly next to it was left unowned')
+        elif outer_only:
             res.bad('print!=text:unowned-outer-trivia:' + ('comment' if has_comment else 'blank') + ':claim=' + ('on' if claim else 'off'),
                     f'parse({text!r}, {cls.__name__}, auto_claim_comments={claim}) prints {printed!r}: trivia outside the model stays in the store but is not printed')
         else:
